@@ -26,6 +26,10 @@ fn main() {
         "c19" => pv::c19::run(&args),
         "c20" => pv::c20::run(&args),
         "c08" => pv::byterun::run_c08(&args),
+        "c14" => pv::lst::run_c14(&args),
+        "c15" => pv::lst::run_c15(&args),
+        "c16" => pv::lst::run_c16(&args),
+        "c17" => pv::lst::run_c17(&args),
         other => {
             eprintln!("unknown runner {other}");
             std::process::exit(2);
